@@ -56,6 +56,9 @@ Definition enr_prefix : bytes := [101; 110; 114; 58]. (* "enr:" *)
 
 Definition starts_with (p s : bytes) : bool := bytes_eqb (firstn (length p) s) p.
 
+(* the part of the text that is base64: an optional "enr:" prefix is dropped *)
+Definition text_body (s : bytes) : bytes := if starts_with enr_prefix s then skipn 4 s else s.
+
 Section WithCrypto.
 Variable c : crypto.
 
@@ -65,8 +68,7 @@ Definition to_text (r : record) : bytes := enr_prefix ++ b64_encode (encode r).
 (* FromStr: input is the UTF-8 bytes of the &str *)
 Definition from_str (kt : keytype) (s : bytes) : res record :=
   if lenN s <? 4 then Err ECustom else
-  let body := if starts_with enr_prefix s then skipn 4 s else s in
-  match b64_decode body with
+  match b64_decode (text_body s) with
   | None => Err ECustom
   | Some b =>
       do (r, rest) <- decode c kt b;
@@ -81,14 +83,18 @@ Definition to_json (r : record) : bytes := [34] ++ to_text r ++ [34].
 Definition plain_json_char (ch : N) : bool := (32 <=? ch) && negb (ch =? 34) && negb (ch =? 92).
 Definition from_json (kt : keytype) (s : bytes) : option (res record) :=
   match s with
-  | 34 :: t =>
-      match rev t with
-      | 34 :: rbody =>
-          let body := rev rbody in
-          if forallb plain_json_char body then Some (from_str kt body) else None
-      | _ => None
-      end
-  | _ => None
+  | q :: t =>
+      if q =? 34 then
+        match rev t with
+        | q2 :: rbody =>
+            if q2 =? 34 then
+              let body := rev rbody in
+              if forallb plain_json_char body then Some (from_str kt body) else None
+            else None
+        | [] => None
+        end
+      else None
+  | [] => None
   end.
 
 End WithCrypto.
